@@ -28,7 +28,7 @@ Known == ndJsonDeserialize(IOEnv.KNOWN)
 
 (* only ValidFrom is used; the universe constants of CertChain are irrelevant here *)
 C == INSTANCE CertChain WITH Shape <- <<1, 2>>, EpochOrderStrict <- TRUE, CacheSound <- TRUE,
-        MaxAlter <- 1, TamperFields <- {}, MsgModes <- {}, ForgeEpochs <- {}, Forge2Pars <- {}, ForgeKeys <- {}, ForgePars <- {}, ForgeNextAvk <- {},
+        MaxAlter <- 1, TamperFields <- {}, MsgModes <- {}, Twins <- FALSE, ForgeEpochs <- {}, Forge2Pars <- {}, ForgeKeys <- {}, ForgePars <- {}, ForgeNextAvk <- {},
         ForgeNextPars <- {}, ForgeLevels <- 1
 
 VARIABLE l
